@@ -128,6 +128,7 @@ type Meta struct {
 	Shard       int              `json:"shard"`
 	Files       []string         `json:"files"`
 	Offsets     []int            `json:"offsets,omitempty"` // index of the first case of each file (default k*shard)
+	IndexMap    []int            `json:"index_map,omitempty"` // judged-case number -> index into Cases (when only some cases go to Coq)
 	NCases      int              `json:"n_cases"`
 	Distinct    int              `json:"distinct_nontrivial"`
 	Rule        string           `json:"rule"`
